@@ -39,8 +39,11 @@ impl Prop for C02 {
             Tier::Thorough => 50000,
         }
     }
-    fn run_case(&self, _cfg: &RunCfg, _idx: usize, rng: &mut Rng, out: &mut Out) {
+    fn run_case(&self, cfg: &RunCfg, _idx: usize, rng: &mut Rng, out: &mut Out) {
         let mut gcfg = GenCfg::order_insensitive();
+        if cfg.tier == Tier::Thorough {
+            gcfg.max_stanzas = 8;
+        }
         // out-of-range `$n` is part of the property ("invalid regex capture")
         gcfg.fault_pct = 15;
         let mut case = build_case(rng, &gcfg, 20, 15, 12);
